@@ -321,6 +321,21 @@ static inline void vo_close(void)
 		close(VO.progfd);
 }
 
+/* a monitor has decided that the current case cannot be brought to an end (the client spins in calls that are
+ * not cancellation points): keep what was observed, end the process; the runner resumes with the next case */
+static inline void vo_abort_case(void)
+{
+	for (unsigned int i = 0; i < VCNT_N; i++) {
+		fprintf(VO.f, "{\"t\":\"cnt\",\"k\":");
+		json_str(VO.f, VCNT[i].k);
+		fprintf(VO.f, ",\"v\":%" PRIu64 "}\n", VCNT[i].v);
+	}
+	fflush(VO.f);
+	if (VO.nt)
+		fflush(VO.nt);
+	_exit(99);
+}
+
 /* key=value extra arguments */
 static inline const char *argkv(int argc, char **argv, const char *key, const char *dflt)
 {
